@@ -255,10 +255,12 @@ def hist_header_set(W, ops, prng):
     # a second response alive at the same time (another request being answered): its header is its own
     other = W["Response"]()
     other.headers[name] = "Seed"
+    as_written = False
     for op in ops:
         # (entries that need quoting in the header: blanks, a comma, backslashes in a row, a backslash before a quote)
         x = prng.choice(["Cookie", "cookie", "COOKIE", "Accept", "x y", "x y", "a,b", "\\\\server\\share", 'tail\\"', "x\\\\\\y", 'q"r', "Stra\u00dfe", "gro\u00df"])
         hist.append((op, x))
+        before = list(model)
         if prng.random() < 0.3:
             # the other response's property is looked at between our view being handed out and being edited
             "seed" in getattr(other, prop)  # noqa: B015
@@ -287,10 +289,14 @@ def hist_header_set(W, ops, prng):
             hs.clear()
             model = []
         elif op == "assign":
-            v = prng.choice([None, "a, B", ["p", "Q"], [], ("t", "U"), "a"])  # (a dict has no documented meaning for a set header)
+            # (a dict has no documented meaning for a set header; a token given in two letter cases is one member, first spelling kept)
+            v = prng.choice([None, "a, B", ["p", "Q"], [], ("t", "U"), "a", ["Accept", "accept", "k"], ["Cookie", "x y", "COOKIE"]])
             setattr(r, prop, v)
             hs = getattr(r, prop)
             model = [] if not v else (["a", "B"] if v == "a, B" else [v] if isinstance(v, str) else list(v))
+            given = len(model)
+            model = [m for i, m in enumerate(model) if m.lower() not in [o.lower() for o in model[:i]]]
+            as_written = len(model) != given  # (the header carries the list as given until the view is edited)
         elif op == "setitem":
             if model and (not mhas(x) or model[0].lower() == x.lower()):
                 # a new member, or a different spelling of the member being replaced (no duplicate can arise)
@@ -301,11 +307,19 @@ def hist_header_set(W, ops, prng):
                 del hs[0]
                 del model[0]
         elif op == "direct":
-            r.headers[name] = "q, W"
+            as_written = False
+            if prng.random() < 0.5:
+                r.headers[name] = "q, W"
+                model = ["q", "W"]
+            else:
+                r.headers[name] = "Accept, accept, cookie, W"  # a header naming one token in two letter cases
+                model = ["Accept", "cookie", "W"]
+                as_written = True  # (the text stays as the application wrote it until the view is edited)
             hs = getattr(r, prop)
-            model = ["q", "W"]
         elif op == "reget":
             hs = getattr(r, prop)
+        if op not in ("direct", "assign") and model != before:
+            as_written = False
         fails = contracts.LOG.take()
         if fails:
             raise Drift(f"C16/header-set:invariant-{fails[0][0]}", f"{hist!r}: {fails[0][1]}")
@@ -317,7 +331,7 @@ def hist_header_set(W, ops, prng):
             key = "C16/header-set:remove-different-case-leaves-item" if op in ("remove", "discard") else f"C16/header-set:view-differs-from-shadow-model:{op}"
             raise Drift(key, f"{hist!r}: view {list(hs)!r} model {model!r}")
         if model:
-            if hdr != hs.to_header():
+            if hdr != hs.to_header() and not as_written:
                 key = "C16/header-set:remove-different-case-leaves-item" if op in ("remove", "discard") else f"C16/header-set:header-differs-from-view:{op}"
                 raise Drift(key, f"{hist!r}: header {hdr!r} view {hs.to_header()!r}")
         elif hdr is not None:
